@@ -43,6 +43,10 @@ WAIVED = {
     (26, 'gate: GS1 '): 'classes re-created by a decorator (@dataclass(slots=True)): not modelled; none in the code base',
     (21, 'M2 '): 'assumption on attribute reads (see H1): r.hdr.kind fails only if the function reckons with r / r.hdr being None',
     (21, 'M3 '): 'as above',
+    (41, 'H1 '): 'type errors are not counted as failures (arithmetic on the None that a procedure returns)',
+    (41, 'H2 '): 'as above',
+    (43, 'gate: S4 '): 'contrived: a class statement re-using the helper name after its def',
+    (43, 'gate: S5 '): 'contrived: `except .. as <helper name>` at module level',
     (6, 'C5 '): 'assumption: a module-level constant bound once is not rebound from outside its module (the DEBUG-flag limitation, DESIGN 8.7)',
 }
 
@@ -122,6 +126,44 @@ def still_open():
                 equiv.REPO_DEFINED[0] = frozenset()
                 if q in gate.apply(ast.parse(cur), ast.parse(ref), lambda t: None):
                     out.append((30 + n, 'gate: ' + title))
+        # round 4 (general sweep, step interactions, the gate end to end): r4_findings_<n>.py
+        from tdstatic import loader
+        saved_env = (loader.REPO, getattr(gate, '_REF', None), dict(gate._PARSED))
+        try:
+            for n in (1, 2, 3):
+                fn = os.path.join(here, f'r4_findings_{n}.py')
+                if not os.path.exists(fn):
+                    continue
+                spec = importlib.util.spec_from_file_location(f'redteam_r4_{n}', fn)
+                m = importlib.util.module_from_spec(spec)
+                with contextlib.redirect_stdout(io.StringIO()):
+                    spec.loader.exec_module(m)
+                equiv.REPO_DEFINED[0] = frozenset()
+                for title, a, b, kw in m.FINDINGS:
+                    total += 1
+                    try:
+                        s = m.same(a, b, **(kw or {}))
+                    except equiv.NotCanonicalisable:
+                        s = False
+                    if s:
+                        out.append((40 + n, title))
+                for entry in getattr(m, 'GATE_FINDINGS', []):
+                    title, cur, ref, q = entry[:4]
+                    total += 1
+                    equiv.REPO_DEFINED[0] = frozenset()
+                    if n == 3:
+                        g = m.gated(title, cur, ref)[0]
+                    else:
+                        g = gate.apply(ast.parse(cur), ast.parse(ref), lambda t: None)
+                    if q in g:
+                        out.append((40 + n, 'gate: ' + title))
+        finally:
+            loader.REPO = saved_env[0]
+            if saved_env[1] is not None or hasattr(gate, '_REF'):
+                gate._REF = saved_env[1]
+            gate._PARSED.clear()
+            gate._PARSED.update(saved_env[2])
+            gate._REF_DEFS[0] = None
     finally:
         equiv.REPO_DEFINED[0] = saved
     return out, total
